@@ -671,8 +671,12 @@ zif_find_zrng(zif_t z, stamp_t t)
 static stamp_t
 __tai_offs(stamp_t t)
 {
-	/* difference of TAI and UTC at epoch instant */
-	zidx_t zi = leaps_before_si32(leaps_s, nleaps_corr, t);
+	/* difference of TAI and UTC at epoch instant
+	 * the table is keyed by 32-bit stamps and bracketed by INT32_MIN
+	 * and INT32_MAX, don't let later or earlier stamps wrap around */
+	zidx_t zi = leaps_before_si32(
+		leaps_s, nleaps_corr,
+		t > INT32_MAX ? INT32_MAX : t < INT32_MIN ? INT32_MIN : (int32_t)t);
 
 	return leaps_corr[zi];
 }
